@@ -520,3 +520,62 @@ Lemma lease_example :
               (id_init 1000))
   = [RId 0 true; ROk; RId 1000 true; ROk; ROk; RId 1001 true; RId 1002 true].
 Proof. vm_compute. reflexivity. Qed.
+
+(** ** F13c, exact: which handed-out ids a restart loses, and why the pinned contextual store
+    leaves them in that position *)
+Section Lost.
+  Variable L : N.
+  Hypothesis HL : 1 <= L.
+
+  (** a contextual store created while its parent had no id transaction commits nothing:
+      its commitIDTxn is the identity, the ids its ExecuteTransaction asserted stay pending *)
+  Lemma ctx_commit_noop k st : nth_error (ctxs st) k = Some None -> commit_ctx CtxCopyPtr k st = (st, ROk).
+  Proof. intros H. cbn [commit_ctx]. now rewrite H. Qed.
+
+  Lemma NoDup_app_disjoint {A} (a b : list A) x : NoDup (a ++ b) -> In x b -> ~ In x a.
+  Proof.
+    induction a as [|y a IH]; cbn; intros Hnd Hb; [tauto|].
+    inversion Hnd as [|? ? Hn Hd]; subst. intros [->|Ha]; [apply Hn, in_or_app; now right | now apply IH].
+  Qed.
+
+  (** what a restart (clean or crash) does to a pair the current id transaction can see:
+      committed pairs survive and stay the answer; pending pairs are gone and the URI is given a
+      strictly larger id - nothing else can happen *)
+  Theorem restart_loses_exactly_pending crash st u i :
+    idinv st -> u <> [] -> In (u, i) (view st) ->
+    let st2 := id_restart L crash st in
+    (In (u, i) (disk st) -> snd (assert_id L u st2) = RId i false)
+    /\ (In (u, i) (pend st) -> exists j, snd (assert_id L u st2) = RId j true /\ i < j).
+  Proof.
+    intros Hinv Hne Hin st2.
+    destruct (id_restart_spec L HL crash st Hinv) as (Hi2 & _ & Hd2 & Hm2). fold st2 in Hi2, Hd2, Hm2.
+    assert (Hv2 : view st2 = disk st) by (unfold view, st2, id_restart; cbn; apply app_nil_r).
+    split.
+    - intros Hd. unfold assert_id. destruct u as [|c u]; [contradiction|]. rewrite Hm2, Hv2.
+      rewrite (sIn_lookup _ _ _ (proj1 (idinv_disk_keys _ Hinv)) Hd). reflexivity.
+    - intros Hp.
+      assert (Hnone : slookup u (view st2) = None).
+      { rewrite Hv2. apply slookup_None. pose proof (iv_keys _ Hinv) as K. unfold view in K. rewrite map_app in K.
+        apply (NoDup_app_disjoint _ _ _ K). now apply (in_map fst) in Hp. }
+      unfold assert_id. destruct u as [|c u]; [contradiction|]. rewrite Hm2, Hnone.
+      pose proof (iv_seq _ Hi2) as [S1 S2]. pose proof (seq_next_spec L HL st2 S1 S2) as Hs.
+      destruct (seq_next L st2) as [j s1]. destruct Hs as (Hj & _). cbn [snd]. exists j. split; [reflexivity|].
+      assert (Hlt : i < nxt st) by (apply (iv_lt _ Hinv (c :: u)), (iv_incl _ Hinv), Hin).
+      assert (Hge : nxt st <= nxt st2).
+      { destruct Hinv as [_ _ _ _ _ [A B] _]. unfold st2, id_restart. cbn. destruct crash; [lia|].
+        destruct (dseq st =? leased st); lia. }
+      lia.
+  Qed.
+
+  (** the two variants side by side on one step: same state, same contextual store, same commit *)
+  Theorem ctx_commit_variants k st :
+    idinv st -> alive st -> nth_error (ctxs st) k = Some None ->
+    (fst (commit_ctx CtxCopyPtr k st) = st /\ snd (commit_ctx CtxCopyPtr k st) = ROk)
+    /\ (pend (fst (commit_ctx CtxShared k st)) = [] /\ disk (fst (commit_ctx CtxShared k st)) = view st
+        /\ snd (commit_ctx CtxShared k st) = ROk).
+  Proof.
+    intros Hinv Ha Hk. split; [rewrite (ctx_commit_noop k st Hk); split; reflexivity|].
+    pose proof (commit_ctx_spec CtxShared k st Hinv) as H. destruct (commit_ctx CtxShared k st) as [s1 o].
+    destruct H as (_ & _ & _ & _ & Hs & _). destruct (Hs eq_refl Ha) as (-> & _ & Hp & Hd). cbn. auto.
+  Qed.
+End Lost.
